@@ -118,12 +118,15 @@ def run(ctx):
         keys = markers.Keys(sess.p)
         wd = '/work' if ext else None
         rm = reqmodel.ReqModel(sess.p, keys, wd=wd)
-        texts = list(ODD)
+        texts = list(ODD) + list(reqgen.NEAR_GRAMMAR)
         for i in range(n if not ext else n // 3):
             d = reqgen.gen_derivation(ctx.rng)
             texts.append((reqgen.render(ctx.rng, d, loose=True), d))
         for item in texts:
             text, d = item if isinstance(item, tuple) else (item, None)
+            if d is None and text in reqgen.NEAR_GRAMMAR:
+                # at the edge of the grammar: acceptance itself is compared with the model first
+                reqmodel.compare_req(ctx, sess, rm, text, True, wd)
             for verbatim in (True, False):
                 ctx.evaluations += 1
                 s1 = roundtrip(ctx, sess, keys, text, verbatim, wd)
@@ -145,7 +148,7 @@ def run(ctx):
                 ctx.nontrivial((ext, 'env', val))
         sess.ask(['unsetenv', S('VERIF_V')])
         if ext:
-            for text in UODD + [u + suffix for u in ['https://h/p', './rel/p.whl', '/abs/p', 'file:///a/b', 'git+https://h/r.git@main'] for suffix in ['', '[a]', '[a,b] ; os_name == "a"', ' ; python_version >= "3.8"']]:
+            for text in UODD + list(reqgen.NEAR_GRAMMAR_UNNAMED) + [u + suffix for u in ['https://h/p', './rel/p.whl', '/abs/p', 'file:///a/b', 'git+https://h/r.git@main'] for suffix in ['', '[a]', '[a,b] ; os_name == "a"', ' ; python_version >= "3.8"']]:
                 ctx.evaluations += 1
                 s1 = roundtrip(ctx, sess, keys, text, True, wd, unnamed=True)
                 ctx.nontrivial(('unnamed', text[:6], '[' in text, ';' in text, s1 is not None))
